@@ -14,6 +14,7 @@ Require Import DS.Proofs.RepointProofs DS.Proofs.MetaProofs.
 Require Import DS.Model.MetaPy DS.Gen.GenMeta DS.Proofs.MetaGenProofs DS.Gen.GenFileOps DS.Proofs.FileOpsGenProofs.
 Require Import DS.Model.CommitBase DS.Gen.GenCommit DS.Proofs.StepGenProofs.
 Require Import DS.Model.ManifestCodec DS.Gen.GenEntryCodec DS.Proofs.EntryCodecProofs.
+Require Import DS.Proofs.CurEmptyProofs.
 Import ListNotations.
 Open Scope Z_scope.
 
@@ -27,6 +28,14 @@ Theorem C15_wf_invariant : forall (t0 f0 : Z) (ops : list op),
   fresh_ops f0 ops -> WF (hist_of t0 f0 ops) (md (replay t0 f0 ops)).
 Proof. exact wf_invariant. Qed.
 Print Assumptions C15_wf_invariant.
+
+(* ... and "or the table is empty" is meant literally: WF's first conjunct allows a table without a current snapshot;
+   after any history such a table (current_snapshot_id null or the -1 sentinel) retains NO snapshot at all -- deleting the
+   current snapshot repoints to a survivor whenever there is one, expiry and retention never drop the current one. *)
+Theorem C15_no_current_means_empty : forall (t0 f0 : Z) (ops : list op), fresh_ops f0 ops ->
+  nil_link (cur (md (replay t0 f0 ops))) -> snaps (md (replay t0 f0 ops)) = [].
+Proof. exact cur_nil_means_empty. Qed.
+Print Assumptions C15_no_current_means_empty.
 
 (* ... in particular, read in snapshot-log order the retained snapshots' sequence numbers strictly increase *)
 Theorem C15_seq_in_log_order : forall (H : list snap) (m : meta), WF H m ->
